@@ -1,6 +1,10 @@
 // C06 — JSON/XDL decoding: explicit-state exploration of the real incremental XdlParser driven one symbol at a time,
 // in product with an independent strict RFC 8259 recogniser (common/refjson.h, itself cross-checked against python json).
 // Pass A: exact key (every private field incl. partial trees). Pass B: abstracted key (control-relevant summary), deeper.
+// Passes AX/BX: the same over an alphabet extended by false E + \b \f \r TAB CR 9, shallower.
+// Finite families, each text fed whole, byte-wise (with empty chunks) and cut at every byte, both decode entry points against the reference:
+// deep nesting, snippet insertion (C), token table x contexts x white space (D), objects with repeated names (E), token lengths and
+// container widths (F), files through the library's own block reader Xdl::read / Json::read (G).
 #include <asl/Xdl.h>
 #include <asl/JSON.h>
 #include <asl/Var.h>
@@ -8,6 +12,7 @@
 #include "aslx.h"
 #include "refjson.h"
 #include <set>
+#include <sys/resource.h>
 using namespace asl;
 using vf::fmt;
 
@@ -15,13 +20,15 @@ struct Sym { const char* text; const char* name; };
 static const Sym SYMS[] = {
 	{ "{", "{" }, { "}", "}" }, { "[", "[" }, { "]", "]" }, { ",", "," }, { ":", ":" }, { "\"", "\"" }, { "\\", "\\" }, { "/", "/" }, { "*", "*" }, { "=", "=" },
 	{ " ", "SP" }, { "\n", "LF" }, { "0", "0" }, { "1", "1" }, { "-", "-" }, { ".", "." }, { "e", "e" }, { "a", "a" }, { "_", "_" }, { "true", "true" }, { "null", "null" },
-	{ "\xc3\xa9", "e-acute" }, { "\\ud83d", "\\ud83d" }, { "\\ude00", "\\ude00" }, { "\x01", "0x01" }, { "\x80", "0x80" }, { "\xff", "0xff" }, { "u", "u" }
+	{ "\xc3\xa9", "e-acute" }, { "\\ud83d", "\\ud83d" }, { "\\ude00", "\\ude00" }, { "\x01", "0x01" }, { "\x80", "0x80" }, { "\xff", "0xff" }, { "u", "u" },
+	// extended alphabet of the passes "exactx"/"abstractx" only (appended, so that histories of the 29-symbol alphabet keep their numbering)
+	{ "false", "false" }, { "E", "E" }, { "+", "+" }, { "\\b", "\\b" }, { "\\f", "\\f" }, { "\\r", "\\r" }, { "\t", "TAB" }, { "\r", "CR" }, { "9", "9" }
 };
-static const int NSYM = sizeof SYMS / sizeof *SYMS;
+enum { NSYM_BASE = 29, NSYM_ALL = sizeof SYMS / sizeof *SYMS };
 enum { S_NUMBER, S_INT, S_STRING, S_PROPERTY, S_IDENTIFIER, S_NUMBER_E, S_NUMBER_ES, S_NUMBER_EV, S_NUMBER_DOT, S_MINUS, S_WAIT_SEP, S_WAIT_EQUAL, S_WAIT_VALUE, S_WAIT_PROPERTY, S_WAIT_OBJ, S_QPROPERTY, S_ESCAPE, S_ERR, S_UNICODECHAR, S_WAIT_COMMA_OR_PROPERTY, S_WAIT_COMMA_OR_VALUE, NSTATES };
 enum { X_ROOT, X_ARRAY, X_OBJECT, X_COMMENT1, X_COMMENT, X_LINECOMMENT, X_ENDCOMMENT, NCTX };
 
-static int W_STATE[NSTATES], W_CTX[NCTX], W_PUSHBACK, W_ACCEPT, W_REJECT_OPEN, W_LENIENT, W_EXCLUDED, W_DUPKEY, W_SURROGATE_PAIR, C_PYLINES, W_DEEP;
+static int W_STATE[NSTATES], W_CTX[NCTX], W_PUSHBACK, W_ACCEPT, W_REJECT_OPEN, W_LENIENT, W_EXCLUDED, W_DUPKEY, W_DUPKEY_PENDING, W_SURROGATE_PAIR, C_PYLINES, W_DEEP;
 
 // canonical dump of a Var in the format of rj::dump
 static std::string dumpVar(const Var& v) {
@@ -79,19 +86,19 @@ static std::string abstractKey(XdlParser& p, const rj::Ref& r) {
 
 static void feedSyms(XdlParser& p, const std::string& text, int mode, size_t cut = 0) {
 	if (mode == 0) p.parse(text.c_str());
-	else if (mode == 1) { char c[2] = { 0, 0 }; for (size_t i = 0; i < text.size(); i++) { c[0] = text[i]; p.parse(c); } }
+	else if (mode == 1) { char c[2] = { 0, 0 }; for (size_t i = 0; i < text.size(); i++) { p.parse(""); c[0] = text[i]; p.parse(c); } p.parse(""); } // byte by byte, with an empty chunk before every byte and at the end
 	else { std::string a = text.substr(0, cut), b = text.substr(cut); p.parse(a.c_str()); p.parse(b.c_str()); }
 }
 
 struct JsonSys {
-	bool abstract; int maxNest, collectMaxLen; std::string label;
-	XdlParser* p; rj::Ref ref; std::string text; int nsym;
+	bool abstract; int maxNest, collectMaxLen; std::string label; int nsym;
+	XdlParser* p; rj::Ref ref; std::string text; int nsteps;
 	FILE* pyf; char iobuf[1 << 16];
 	FILE* absf; char iobuf2[1 << 16]; int absDepth; // abstraction check: abstract keys of all states up to absDepth, from both passes
-	JsonSys(bool a, int nest, int collect, const std::string& l) : abstract(a), maxNest(nest), collectMaxLen(collect), label(l), p(0), nsym(0), pyf(0), absf(0), absDepth(0) {}
-	int nops() { return NSYM; }
+	JsonSys(bool a, int nest, int collect, const std::string& l, int ns) : abstract(a), maxNest(nest), collectMaxLen(collect), label(l), nsym(ns), p(0), nsteps(0), pyf(0), absf(0), absDepth(0) {}
+	int nops() { return nsym; }
 	void reset() {
-		delete p; p = new XdlParser(); ref.reset(); std::string().swap(text); nsym = 0;
+		delete p; p = new XdlParser(); ref.reset(); std::string().swap(text); nsteps = 0;
 		if (!absf && absDepth && vf::in_worker()) { absf = fopen((vf::scratch_dir() + fmt("/abs.%s.%d.%d", label.c_str(), vf::worker_id(), (int)getpid())).c_str(), "a"); if (absf) setvbuf(absf, iobuf2, _IOFBF, sizeof iobuf2); }
 		if (!pyf && vf::in_worker()) { pyf = fopen((vf::scratch_dir() + fmt("/py.%s.%d.%d", label.c_str(), vf::worker_id(), (int)getpid())).c_str(), "a"); if (pyf) setvbuf(pyf, iobuf, _IOFBF, sizeof iobuf); }
 	}
@@ -103,8 +110,8 @@ struct JsonSys {
 	const char* predict(int) { return 0; }
 	std::string opname(int op) { return SYMS[op].name; }
 	bool apply(int op, std::string& err) {
-		int st0 = p->_state;
-		p->parse(SYMS[op].text); ref.feed(std::string(SYMS[op].text)); text += SYMS[op].text; nsym++;
+		int st0 = p->_state, uc0 = p->_unicodeCount;
+		p->parse(SYMS[op].text); ref.feed(std::string(SYMS[op].text)); text += SYMS[op].text; nsteps++;
 		if (p->_context.length() < 1) { err = "context stack empty"; return false; }
 		if (p->_lists.length() < 1) { err = "container stack empty"; return false; }
 		if (p->_state != S_ERR) {
@@ -114,6 +121,8 @@ struct JsonSys {
 		if (p->_state >= 0 && p->_state < NSTATES) vf::add(W_STATE[(int)p->_state]);
 		vf::add(W_CTX[(int)p->_context.top() < NCTX ? (int)p->_context.top() : 0]);
 		if ((st0 == S_INT || st0 == S_NUMBER || st0 == S_NUMBER_EV || st0 == S_IDENTIFIER || st0 == S_PROPERTY) && p->_state != st0 && p->_state != S_ERR && strlen(SYMS[op].text) == 1) vf::add(W_PUSHBACK);
+		if (uc0 == 4 && p->_unicodeCount == 0 && p->_state != S_ERR && SYMS[op].text[0] == '\\' && SYMS[op].text[1] == 'u') vf::add(W_SURROGATE_PAIR);
+		if (p->_state != S_ERR && p->_props.length() && p->_lists.top().type() == Var::OBJ && p->_lists.top().has(p->_props.top())) vf::add(W_DUPKEY_PENDING);
 		return true;
 	}
 	void fail(const char* sig, const std::string& d) { vf::violation(sig, d + "  input: " + vf::hex(text) + " '" + printable() + "'", label + ":" + histOfText()); }
@@ -126,7 +135,7 @@ struct JsonSys {
 		{ XdlParser q; feedSyms(q, text, 0); if (exactKey(q) != E) fail("chunk_dependence", "feeding the text in one chunk gives a different parser state than symbol by symbol"); }
 		{ XdlParser q; feedSyms(q, text, 1); if (exactKey(q) != E) fail("chunk_dependence", "feeding the text byte by byte gives a different parser state than symbol by symbol"); }
 		if (!abstract) for (size_t c = 1; c < text.size(); c++) { XdlParser q; feedSyms(q, text, 2, c); if (exactKey(q) != E) { fail("chunk_dependence", fmt("cutting the text at byte %d gives a different parser state", (int)c)); break; } }
-		Var v = Json::decode(vfx::A(text));
+		Var v = Json::decode(vfx::A(text)), x = Xdl::decode(vfx::A(text));
 		{ XdlParser q; q.parse(text.c_str()); q.parse(" "); Var w = q.value(); if (dumpVar(w) != dumpVar(v) || w.ok() != v.ok()) fail("chunk_dependence", "Json::decode differs from parse(text)+parse(\" \")+value()"); }
 		std::string verdict;
 		// rejection is final (ERR absorbs), so it may only happen once no RFC 8259 document starts with this text
@@ -136,93 +145,258 @@ struct JsonSys {
 			std::string want = rj::dump(ref.value());
 			verdict = "V" + want;
 			vf::add(W_ACCEPT);
-			if (!v.ok()) fail("reject_valid", "valid RFC 8259 document rejected (reference value " + want + ")");
-			else if (dumpVar(v) != want) fail("wrong_value", "decoded value " + dumpVar(v) + " differs from reference " + want);
+			for (int api = 0; api < 2; api++) { // the statement names both entry points
+				const Var& d = api ? x : v; const std::string an = api ? "Xdl::decode: " : "";
+				if (!d.ok()) fail("reject_valid", an + "valid RFC 8259 document rejected (reference value " + want + ")");
+				else if (dumpVar(d) != want) fail("wrong_value", an + "decoded value " + dumpVar(d) + " differs from reference " + want);
+			}
 		}
 		else {
 			verdict = "I";
-			if (ref.openTopLevel()) { vf::add(W_REJECT_OPEN); if (v.ok()) fail("accept_truncated", "text stops inside an unterminated top-level array/object/string but decode returned " + dumpVar(v)); }
+			if (ref.openTopLevel()) { vf::add(W_REJECT_OPEN); if (v.ok()) fail("accept_truncated", "text stops inside an unterminated top-level array/object/string but decode returned " + dumpVar(v)); if (x.ok()) fail("accept_truncated", "Xdl::decode: text stops inside an unterminated top-level array/object/string but decode returned " + dumpVar(x)); }
 			else if (v.ok()) vf::add(W_LENIENT);
 		}
 		if ((int)text.size() <= collectMaxLen) {
 			if (pyf) { fprintf(pyf, "%s\t%s\n", vf::hex(text).c_str(), verdict.c_str()); vf::add(C_PYLINES); }
 		}
-		if (absf && nsym <= absDepth) {
+		if (absf && nsteps <= absDepth) {
 			int nest = 0; for (int i = 0; i < p->_context.length(); i++) if (p->_context[i] == X_ARRAY || p->_context[i] == X_OBJECT) nest++;
-			if (nest <= 3) { vf::H128 h = vf::hash128(abstractKey(*p, ref)); fprintf(absf, "%d %016llx%016llx\n", nsym, (unsigned long long)h.a, (unsigned long long)h.b); if (getenv("C06_ABSDEBUG")) { FILE* df = fopen(getenv("C06_ABSDEBUG"), "a"); if (df) { fprintf(df, "%s\t%016llx%016llx\t%s\t%s\n", label.c_str(), (unsigned long long)h.a, (unsigned long long)h.b, vf::hex(text).c_str(), abstractKey(*p, ref).c_str()); fclose(df); } } }
+			if (nest <= 3) { vf::H128 h = vf::hash128(abstractKey(*p, ref)); fprintf(absf, "%d %016llx%016llx\n", nsteps, (unsigned long long)h.a, (unsigned long long)h.b); if (getenv("C06_ABSDEBUG")) { FILE* df = fopen(getenv("C06_ABSDEBUG"), "a"); if (df) { fprintf(df, "%s\t%016llx%016llx\t%s\t%s\n", label.c_str(), (unsigned long long)h.a, (unsigned long long)h.b, vf::hex(text).c_str(), abstractKey(*p, ref).c_str()); fclose(df); } } }
 		}
 		return abstract ? abstractKey(*p, ref) : E + "|R" + ref.stateKey();
 	}
 };
 // the BFS engine does not tell the system the history; keep it from apply()
 struct JsonSysH : JsonSys {
-	JsonSysH(bool a, int nest, int collect, const std::string& l) : JsonSys(a, nest, collect, l) {}
+	JsonSysH(bool a, int nest, int collect, const std::string& l, int ns = NSYM_BASE) : JsonSys(a, nest, collect, l, ns) {}
 	void reset() { JsonSys::reset(); hist.clear(); std::vector<int>().swap(hist); }
 	bool apply(int op, std::string& err) { hist.push_back(op); return JsonSys::apply(op, err); }
 };
 
-// ---- deterministic deep / long cases
-static void deepCases() {
-	int depths[] = { 1, 2, 3, 64, 511, 512 };
-	for (size_t di = 0; di < sizeof depths / sizeof *depths; di++) for (int kind = 0; kind < 3; kind++) {
-		int d = depths[di];
-		std::string t, k = fmt("deep:%d:%d", d, kind);
-		vf::cur(k);
-		for (int i = 0; i < d; i++) t += kind == 0 ? "[" : kind == 1 ? "{\"k\":" : (i % 2 ? "[" : "{\"a\":");
-		t += "1";
-		for (int i = d - 1; i >= 0; i--) t += kind == 0 ? "]" : kind == 1 ? "}" : (i % 2 ? "]" : "}");
-		rj::RV rv; bool ex; bool ok = rj::parse(t, rv, &ex);
-		Var v = Json::decode(vfx::A(t));
-		vf::add(W_DEEP);
-		if (!ok) { fprintf(stderr, "reference rejects its own deep document\n"); _exit(2); }
-		if (!v.ok() || dumpVar(v) != rj::dump(rv)) vf::violation("reject_valid", fmt("nesting depth %d (kind %d) not decoded to the reference value", d, kind), k);
-		for (size_t cut = 1; cut < t.size(); cut += (t.size() > 200 ? 37 : 1)) { Var w = Json::decode(vfx::A(t.substr(0, cut))); if (w.ok()) { vf::violation("accept_truncated", fmt("prefix of length %d of a depth-%d document accepted", (int)cut, d), k); break; } }
-		if (vf::asan_tripped()) { vf::violation("asan", "ASan " + vf::asan_what() + " on deep document", k); vf::asan_clear(); }
+// ---- single-text check shared by the finite families (deep, snippets, token table, objects, long/wide tokens, files)
+static int W_ESC[9], W_HEXU, W_HEXL, W_LIT[3], W_ATOF, W_ATOIZ, W_BEYOND32, W_EXPU, W_EXPPLUS, W_TAB, W_CR, W_BUFHEAP, W_PB_CUT, W_MULTI, W_EMPTY, W_CUTS, C_FAMPY;
+static int W_SNIP, W_SNIP_VALID, W_TOK, W_TOK_VALID, W_OBJDOC, W_LONG, W_LONG_VALID, W_DEEPCUT, W_READ, W_READ_SPLIT;
+static const char ESCCH[] = "\"\\/bfnrtu";
+enum { F_CUTS = 1, F_PY = 2 };
+
+// byte by byte with an empty chunk after every byte, recording which parser branches the text takes
+static void feedObserved(XdlParser& b, const std::string& t, bool cuts) {
+	char c[2] = { 0, 0 }; bool heap = false;
+	b.parse("");
+	for (size_t i = 0; i < t.size(); i++) {
+		int st0 = b._state, uc0 = b._unicodeCount; bool com0 = b._inComment; char ch = t[i];
+		std::string buf0 = (st0 == S_INT || st0 == S_IDENTIFIER) ? vfx::S(b._buffer) : std::string();
+		c[0] = ch; b.parse(c); b.parse(""); vf::add(W_EMPTY);
+		int st1 = b._state;
+		if (b._buffer._size != 0) heap = true;
+		if (st1 == S_ERR || com0) continue;
+		if (st0 == S_ESCAPE) { const char* e = strchr(ESCCH, ch); if (e && ch) vf::add(W_ESC[e - ESCCH]); }
+		if (st0 == S_UNICODECHAR) { if (ch >= 'A' && ch <= 'F') vf::add(W_HEXU); if (ch >= 'a' && ch <= 'f') vf::add(W_HEXL); if (uc0 == 7 && b._unicodeCount == 0) vf::add(W_SURROGATE_PAIR); }
+		if (st0 == S_IDENTIFIER && st1 != S_IDENTIFIER && st1 != S_WAIT_OBJ) { if (buf0 == "true") vf::add(W_LIT[0]); else if (buf0 == "false") vf::add(W_LIT[1]); else if (buf0 == "null") vf::add(W_LIT[2]); }
+		bool pushback = false;
+		if (st0 == S_INT && st1 != S_INT && st1 != S_NUMBER_DOT && st1 != S_NUMBER_E) {
+			pushback = true; vf::add(buf0.size() > 9 ? W_ATOF : W_ATOIZ);
+			double d = strtod(buf0.c_str(), 0); if (d > 2147483647.0 || d < -2147483648.0) vf::add(W_BEYOND32);
+		}
+		if ((st0 == S_NUMBER && st1 != S_NUMBER && st1 != S_NUMBER_E) || (st0 == S_NUMBER_EV && st1 != S_NUMBER_EV) || (st0 == S_IDENTIFIER && st1 != S_IDENTIFIER) || (st0 == S_PROPERTY && st1 != S_PROPERTY)) pushback = true;
+		if (pushback && cuts && i >= 1) vf::add(W_PB_CUT); // the 2-cut at i starts the second chunk with the pushed-back byte
+		if ((st0 == S_INT || st0 == S_NUMBER) && ch == 'E' && st1 == S_NUMBER_E) vf::add(W_EXPU);
+		if (st0 == S_NUMBER_E && ch == '+' && st1 == S_NUMBER_ES) vf::add(W_EXPPLUS);
+		if (st0 != S_STRING && st0 != S_QPROPERTY && st0 != S_ESCAPE && st0 != S_UNICODECHAR && st0 != S_PROPERTY) { if (ch == '\t') vf::add(W_TAB); if (ch == '\r') vf::add(W_CR); }
 	}
-	// unterminated and unbalanced deep inputs: safety only
-	for (int kind = 0; kind < 4; kind++) {
-		std::string k = fmt("deepjunk:%d", kind); vf::cur(k);
-		std::string t; for (int i = 0; i < 20000; i++) t += kind == 0 ? "[" : kind == 1 ? "{\"a\":" : kind == 2 ? "]" : "[{";
-		Var v = Json::decode(vfx::A(t)); (void)v;
-		if (vf::asan_tripped()) { vf::violation("asan", "ASan " + vf::asan_what() + " on deep junk", k); vf::asan_clear(); }
+	if (heap) vf::add(W_BUFHEAP);
+}
+static bool hasDup(const rj::RV& v, bool* multi) {
+	bool d = false;
+	if (v.t == rj::RV::OBJ) { if (v.obj.size() >= 2) *multi = true; std::set<std::string> k; for (size_t i = 0; i < v.obj.size(); i++) { if (!k.insert(v.obj[i].first).second) d = true; if (hasDup(v.obj[i].second, multi)) d = true; } }
+	if (v.t == rj::RV::ARR) for (size_t i = 0; i < v.arr.size(); i++) if (hasDup(v.arr[i], multi)) d = true;
+	return d;
+}
+static FILE* famPy() { static FILE* f = 0; static int pid = 0; if (!f || pid != (int)getpid()) { pid = (int)getpid(); f = fopen((vf::scratch_dir() + fmt("/py.fam.%d.%d", vf::worker_id(), pid)).c_str(), "a"); } return f; }
+static std::string shortText(const std::string& t) { std::string r; for (size_t i = 0; i < t.size() && i < 120; i++) { unsigned char c = t[i]; if (c >= 0x20 && c < 0x7f) r += (char)c; else r += fmt("\\x%02x", c); } if (t.size() > 120) r += fmt("...(%d bytes)", (int)t.size()); return r; }
+// returns true when the text is a valid RFC 8259 document inside the statement
+static bool checkText(const std::string& t, const std::string& kase, int flags, size_t cutStep = 1) {
+	vf::cur(kase);
+	vf::asan_clear();
+	std::string T = shortText(t);
+	XdlParser a, b; a.parse(t.c_str()); feedObserved(b, t, (flags & F_CUTS) != 0);
+	std::string E = exactKey(a);
+	if (E != exactKey(b)) vf::violation("chunk_dependence", "feeding '" + T + "' whole and byte by byte gives different parser states", kase);
+	if (flags & F_CUTS) for (size_t cut = 1; cut < t.size(); cut += cutStep) { vf::add(W_CUTS); XdlParser q; feedSyms(q, t, 2, cut); if (exactKey(q) != E) { vf::violation("chunk_dependence", fmt("cutting '%s' at byte %d gives a different parser state", T.c_str(), (int)cut), kase); break; } }
+	Var v = Json::decode(vfx::A(t)), x = Xdl::decode(vfx::A(t));
+	{ b.parse(" "); Var w = b.value(); if (w.ok() != v.ok() || dumpVar(w) != dumpVar(v)) vf::violation("chunk_dependence", "Json::decode of '" + T + "' differs from the value after feeding it byte by byte", kase); }
+	rj::Ref r; r.feed(t);
+	bool valid = !r.excluded && r.complete();
+	std::string verdict = r.excluded ? "X" : "I";
+	if (valid) {
+		rj::RV rv = r.value(); std::string want = rj::dump(rv); verdict = "V" + want;
+		bool multi = false; if (hasDup(rv, &multi)) vf::add(W_DUPKEY); if (multi) vf::add(W_MULTI);
+		for (int api = 0; api < 2; api++) {
+			const Var& d = api ? x : v; const std::string an = api ? "Xdl::decode: " : "";
+			if (!d.ok()) vf::violation("reject_valid", an + "valid RFC 8259 document rejected: '" + T + "'", kase);
+			else if (dumpVar(d) != want) vf::violation("wrong_value", an + "'" + T + "' decoded to " + dumpVar(d).substr(0, 300) + ", reference " + want.substr(0, 300), kase);
+		}
 	}
+	else if (!r.excluded && r.openTopLevel() && (v.ok() || x.ok())) vf::violation("accept_truncated", "'" + T + "' stops inside an open top-level value but was accepted", kase);
+	if (flags & F_PY) { FILE* f = famPy(); if (f) { fprintf(f, "%s\t%s\n", vf::hex(t).c_str(), verdict.c_str()); vf::add(C_FAMPY); } }
+	if (vf::asan_tripped()) { vf::violation("asan", "ASan " + vf::asan_what() + " decoding '" + T + "'", kase); vf::asan_clear(); }
+	return valid;
 }
 
-// ---- documents with snippets (comments, separators, stray comment openers) inserted at every position, singly and in pairs
-static const char* DOCS[] = { "{\"a\":1,\"b\":[true,null,\"x\"],\"c\":{\"d\":-1.5e3}}", "[1,2,{\"k\":\"v\"}]", "{\"a\":1}", "\"str\"", "[[],{}]", "{\"a\":{\"b\":{\"c\":[1]}}}", "{\"a\":1 \"b\":2}",
-	"{a=1,b=[Y,N],c=x{d=1}}", "{a=1\nb=2}", "[1\n2]", "cls{x=1}", "{a=\"s\"\nb=[1\n2]}", "-12.5e-3", "[1 , 2]" };
-static const char* SNIPS[] = { "//c\n", "//\n", "/*c*/", "/**/", "/* * */", "//c\r", "/", "/*", "//", " ", "\n", ",", "*/", "\"", "}" };
-enum { NDOCS = sizeof DOCS / sizeof *DOCS, NSNIPS = sizeof SNIPS / sizeof *SNIPS };
-static int W_SNIP, W_SNIP_VALID;
-static void snippetText(const std::string& t, const std::string& kase) {
-	vf::cur(kase); vf::add(W_SNIP);
-	vf::asan_clear();
-	XdlParser a, b; a.parse(t.c_str()); { char c[2] = { 0, 0 }; for (size_t i = 0; i < t.size(); i++) { c[0] = t[i]; b.parse(c); } }
-	if (exactKey(a) != exactKey(b)) vf::violation("chunk_dependence", "feeding '" + t + "' whole and byte by byte gives different parser states", kase);
-	for (size_t cut = 1; cut < t.size(); cut++) { XdlParser q; feedSyms(q, t, 2, cut); if (exactKey(q) != exactKey(a)) { vf::violation("chunk_dependence", fmt("cutting '%s' at byte %d gives a different parser state", t.c_str(), (int)cut), kase); break; } }
-	Var v = Json::decode(vfx::A(t));
-	rj::Ref r; r.feed(t);
-	if (!r.excluded && r.complete()) { vf::add(W_SNIP_VALID); std::string want = rj::dump(r.value()); if (!v.ok()) vf::violation("reject_valid", "valid RFC 8259 document rejected: '" + t + "'", kase); else if (dumpVar(v) != want) vf::violation("wrong_value", "'" + t + "' decoded to " + dumpVar(v) + ", reference " + want, kase); }
-	else if (!r.excluded && r.openTopLevel() && v.ok()) vf::violation("accept_truncated", "'" + t + "' stops inside an open top-level value but was accepted", kase);
-	if (vf::asan_tripped()) { vf::violation("asan", "ASan " + vf::asan_what() + " decoding '" + t + "'", kase); vf::asan_clear(); }
+// ---- deterministic deep cases: nesting 1..512 (whole, byte-wise and cut at every byte), prefixes, and unbalanced junk
+static const int DEPTHS[] = { 1, 2, 3, 64, 511, 512 };
+enum { NDEPTHS = sizeof DEPTHS / sizeof *DEPTHS };
+static void deepCase(int d, int kind) {
+	std::string t, k = fmt("deep:%d:%d", d, kind);
+	vf::cur(k);
+	for (int i = 0; i < d; i++) t += kind == 0 ? "[" : kind == 1 ? "{\"k\":" : (i % 2 ? "[" : "{\"a\":");
+	t += "1";
+	for (int i = d - 1; i >= 0; i--) t += kind == 0 ? "]" : kind == 1 ? "}" : (i % 2 ? "]" : "}");
+	rj::RV rv; bool ex; bool ok = rj::parse(t, rv, &ex);
+	vf::add(W_DEEP);
+	if (!ok) { fprintf(stderr, "reference rejects its own deep document\n"); _exit(2); }
+	size_t step = (d > 64 && !vf::opt.thorough()) ? 11 : 1; // quick tier: the 511/512-deep documents are cut at every 11th byte (11 is coprime to the period of every kind), thorough at every byte
+	if (!checkText(t, k, F_CUTS, step)) vf::violation("harness_deep_not_valid", "deep document not classified as valid", k);
+	vf::add(W_DEEPCUT, (t.size() - 2) / step + 1);
+	for (size_t cut = 1; cut < t.size(); cut += (t.size() > 200 ? 37 : 1)) { Var w = Json::decode(vfx::A(t.substr(0, cut))); if (w.ok()) { vf::violation("accept_truncated", fmt("prefix of length %d of a depth-%d document accepted", (int)cut, d), k); break; } }
+	if (vf::asan_tripped()) { vf::violation("asan", "ASan " + vf::asan_what() + " on deep document", k); vf::asan_clear(); }
 }
+static void deepJunk(int kind) { // unterminated and unbalanced deep inputs: safety only
+	std::string k = fmt("deepjunk:%d", kind); vf::cur(k);
+	std::string t; for (int i = 0; i < 20000; i++) t += kind == 0 ? "[" : kind == 1 ? "{\"a\":" : kind == 2 ? "]" : "[{";
+	Var v = Json::decode(vfx::A(t)); (void)v;
+	if (vf::asan_tripped()) { vf::violation("asan", "ASan " + vf::asan_what() + " on deep junk", k); vf::asan_clear(); }
+}
+static void deepItem(int i) { if (i < NDEPTHS * 3) deepCase(DEPTHS[i / 3], i % 3); else deepJunk(i - NDEPTHS * 3); }
+enum { NDEEPITEMS = NDEPTHS * 3 + 4 };
+
+// ---- family C: documents with snippets (comments, separators, white space, stray comment openers) inserted at every position, singly and in pairs
+static const char* DOCS[] = { "{\"a\":1,\"b\":[true,null,\"x\"],\"c\":{\"d\":-1.5e3}}", "[1,2,{\"k\":\"v\"}]", "{\"a\":1}", "\"str\"", "[[],{}]", "{\"a\":{\"b\":{\"c\":[1]}}}", "{\"a\":1 \"b\":2}",
+	"{a=1,b=[Y,N],c=x{d=1}}", "{a=1\nb=2}", "[1\n2]", "cls{x=1}", "{a=\"s\"\nb=[1\n2]}", "-12.5e-3", "[1 , 2]",
+	"{\"a\":1,\"a\":2}", "{\"a\":1,\"b\":2,\"a\":[]}", "[false,\"\\b\\f\\r\\u00E9\",1.5E+3]" };
+static const char* SNIPS[] = { "//c\n", "//\n", "/*c*/", "/**/", "/* * */", "//c\r", "/", "/*", "//", " ", "\n", ",", "*/", "\"", "}", "\t", "\r", "\r\n" };
+enum { NDOCS = sizeof DOCS / sizeof *DOCS, NSNIPS = sizeof SNIPS / sizeof *SNIPS, NDOCS_PAIRS = 14 }; // documents from index 14 on take single snippets only (repeated names are enumerated with family E)
+static void snippetText(const std::string& t, const std::string& kase) { vf::add(W_SNIP); if (checkText(t, kase, F_CUTS | F_PY)) vf::add(W_SNIP_VALID); }
 static std::string snippetCaseText(int d, int p, int s1, int q, int s2) { std::string t = DOCS[d]; if (q >= 0) t.insert(q, SNIPS[s2]); t.insert(p, SNIPS[s1]); return t; } // q >= p: inserted first so that p stays valid
 static void snippetItem(int d, int p, bool pairs) {
 	int L = (int)strlen(DOCS[d]);
 	for (int s1 = 0; s1 < NSNIPS; s1++) {
 		snippetText(snippetCaseText(d, p, s1, -1, 0), fmt("snip:%d:%d:%d:-1:0", d, p, s1));
-		if (pairs && L <= 26) for (int q = p; q <= L; q++) for (int s2 = 0; s2 < 9; s2++) snippetText(snippetCaseText(d, p, s1, q, s2), fmt("snip:%d:%d:%d:%d:%d", d, p, s1, q, s2));
+		if (pairs && L <= 26 && d < NDOCS_PAIRS) for (int q = p; q <= L; q++) for (int s2 = 0; s2 < 9; s2++) snippetText(snippetCaseText(d, p, s1, q, s2), fmt("snip:%d:%d:%d:%d:%d", d, p, s1, q, s2));
 	}
 }
+
+// ---- family D: token table: every token x context x white space around it; whole, byte-wise, cut at every byte
+struct Tok { std::string t; bool str; };
+static std::vector<Tok> TOKS;
+static void buildTokens() {
+	static const char* num[] = { "0", "-0", "1", "9", "-9", "99999999", "999999999", "-99999999", "-999999999", "1000000000", "-1000000000", "2147483646", "2147483647", "2147483648", "2147483649", "-2147483647", "-2147483648", "-2147483649",
+		"4294967295", "4294967296", "-4294967296", "9999999999", "-9999999999", "99999999999", "-99999999999", "9223372036854775807", "9223372036854775808", "-9223372036854775808", "18446744073709551616", "123456789012345678901234567890",
+		"1E2", "1E+2", "1E-2", "1e+2", "1e-2", "1.5E3", "1.5E+3", "1.5E-3", "-1.5E+3", "0E0", "0e+0", "-0E-0", "0.0", "-0.0", "0.5", "1E400", "-1E400", "1e-400", "1E+02", "2E9", "9e9", "2147483647.0", "2147483648E0", "0.1E1", "1.0E+10", "12345678.9", "123456789.5", "1234567890E1" };
+	static const char* lit[] = { "false", "true", "null" };
+	static const char* str[] = { "\"\"", "\"\\b\"", "\"\\f\"", "\"\\r\"", "\"\\n\"", "\"\\t\"", "\"\\\"\"", "\"\\\\\"", "\"\\/\"", "\"\\b\\f\\r\\u00E9\"", "\"a\\bb\\fc\\rd\\ne\\tf\"", "\"\\u00e9\"", "\"\\u00E9\"", "\"\\u20AC\"", "\"\\u20ac\"",
+		"\"\\uD83D\\uDE00\"", "\"\\ud83d\\ude00\"", "\"\\uD83d\\uDe00\"", "\"\\uD800\\uDC00\"", "\"\\uDBFF\\uDFFF\"", "\"\\uFFFF\"", "\"\\uABCD\"", "\"\\uabcd\"", "\"\\uAbCd\"", "\"\\u007F\"", "\"\\u0080\"", "\"\\u07FF\"", "\"\\u0800\"", "\"\\uD7FF\"", "\"\\uE000\"",
+		"\"/\"", "\"//\"", "\"/*\"", "\"\\u0001\"", "\"\\u001F\"", "\"\xc3\xa9\"", "\"\xe2\x82\xac\"", "\"\xf0\x9f\x98\x80\"", "\"\x7f\"", "\"\\u00E9\\uD83D\\uDE00x\"", "\"false\"", "\"1E+2\"", "\"\\\\u00E9\"", "\"{\"", "\"]\"", "\",\"", "\":\"", "\"=\"" };
+	for (size_t i = 0; i < sizeof num / sizeof *num; i++) { Tok k = { num[i], false }; TOKS.push_back(k); }
+	for (size_t i = 0; i < sizeof lit / sizeof *lit; i++) { Tok k = { lit[i], false }; TOKS.push_back(k); }
+	for (size_t i = 0; i < sizeof str / sizeof *str; i++) { Tok k = { str[i], true }; TOKS.push_back(k); }
+	// \u escapes with every hexadecimal digit, of either case, in every position
+	for (int pos = 0; pos < 4; pos++) for (const char* h = "0123456789abcdefABCDEF"; *h; h++) { std::string c = "0041"; c[pos] = *h; Tok k = { "\"\\u" + c + "\"", true }; TOKS.push_back(k); }
+}
+static const char* CTXS[] = { "%", "[%]", "[%,%]", "{\"k\":%}", "{\"k\":%,\"j\":%}", "[[%],%]", /* string tokens only: */ "{%:1}", "{%:%}", "{%:1,%:2}" };
+enum { NCTXS = sizeof CTXS / sizeof *CTXS, NCTXS_ANY = 6 };
+static const char* WSS[] = { "", " ", "\t", "\r", "\n", "\r\n", " \t\r\n" };
+enum { NWS = sizeof WSS / sizeof *WSS };
+static std::string tokenCaseText(int ti, int ci, int li, int wi) { std::string tok = std::string(WSS[li]) + TOKS[ti].t + WSS[wi], t; for (const char* c = CTXS[ci]; *c; c++) if (*c == '%') t += tok; else t += *c; return t; }
+static void tokenCase(int ti, int ci, int li, int wi) { vf::add(W_TOK); if (checkText(tokenCaseText(ti, ci, li, wi), fmt("tok:%d:%d:%d:%d", ti, ci, li, wi), F_CUTS | F_PY)) vf::add(W_TOK_VALID); else vf::violation("harness_token_not_valid", "token table entry not classified as a valid document by the reference: '" + shortText(tokenCaseText(ti, ci, li, wi)) + "'", fmt("tok:%d:%d:%d:%d", ti, ci, li, wi)); }
+static void tokenItem(int ti, bool allWs) {
+	for (int ci = 0; ci < NCTXS; ci++) if (ci < NCTXS_ANY || TOKS[ti].str)
+		for (int li = 0; li < NWS; li++) for (int wi = 0; wi < NWS; wi++) if (allWs || li == 0 || wi == 0 || li == wi) tokenCase(ti, ci, li, wi);
+}
+
+// ---- family E: every object with up to K members over 3 names (so: every pattern of repeated names) and 5 values
+static const char* ONAMES[] = { "\"a\"", "\"b\"", "\"\"" };
+static const char* OVALS[] = { "1", "[]", "{}", "\"x\"", "false" };
+static std::string objectCaseText(int k, int idx) { std::string t = "{"; for (int i = 0; i < k; i++) { int m = idx % 15; idx /= 15; t += (i ? "," : "") + std::string(ONAMES[m % 3]) + ":" + OVALS[m / 3]; } return t + "}"; }
+static int pow15(int k) { int n = 1; while (k--) n *= 15; return n; }
+static void objectCase(int k, int idx) { vf::add(W_OBJDOC); std::string kase = fmt("obj:%d:%d", k, idx); if (!checkText(objectCaseText(k, idx), kase, F_CUTS | F_PY)) vf::violation("harness_object_not_valid", "generated object not classified as valid", kase); }
+
+// ---- family F: long tokens and wide containers (token buffer, array and dictionary growth inside the parser)
+enum { NLONGKINDS = 12 };
+static bool longIsContainer(int kind) { return kind >= 9; }
+static std::string longCaseText(int kind, int n) {
+	std::string t;
+	switch (kind) {
+	case 0: t = "\"" + std::string(n, 'x') + "\""; break;                                            // string value
+	case 1: t = "{\"" + std::string(n, 'x') + "\":1}"; break;                                        // member name
+	case 2: t = "0."; for (int i = 0; i <= n; i++) t += char('0' + (i + 1) % 10); break;              // n+1 fraction digits
+	case 3: for (int i = 0; i <= n; i++) t += char('0' + (i + 1) % 10); break;                       // n+1 integer digits
+	case 4: t = "[-"; for (int i = 0; i <= n; i++) t += char('0' + (i + 1) % 10); t += "]"; break;    // negative, inside an array
+	case 5: t = "1e" + std::string(n, '0') + "1"; break;                                             // exponent digits
+	case 6: t = "\""; for (int i = 0; i < n; i++) t += "\\u00e9"; t += "\""; break;                   // string of escapes (2 bytes each)
+	case 7: t = "\""; for (int i = 0; i < n; i++) t += (i % 2 ? "\\n" : "\xe2\x82\xac"); t += "\""; break;
+	case 8: t = std::string(n + 1, 'a') + "{}"; break;                                                // XDL class name: not JSON (safety and chunk independence only)
+	case 9: t = "["; for (int i = 0; i < n; i++) t += fmt(i ? ",%d" : "%d", i); t += "]"; break;
+	case 10: t = "{"; for (int i = 0; i < n; i++) t += fmt(i ? ",\"k%d\":%d" : "\"k%d\":%d", i, i); t += "}"; break;
+	default: t = "["; for (int i = 0; i < n; i++) t += (i ? "," : "") + std::string(i % 3 == 0 ? "[]" : i % 3 == 1 ? "{}" : "\"s\""); t += "]"; break;
+	}
+	return t;
+}
+// cut at every byte for the shorter ones and around every power of two (buffer and array capacities double there); the others are fed whole and byte by byte
+static bool longCuts(int kind, int n) { int lim = vf::opt.thorough() ? (longIsContainer(kind) ? 64 : 300) : (longIsContainer(kind) ? 48 : 40); if (n <= lim) return true; for (int p = 64; p <= 4096; p *= 2) if (n >= p - 1 && n <= p + 1) return true; return false; }
+static void longCase(int kind, int n) { vf::add(W_LONG); std::string kase = fmt("long:%d:%d", kind, n); bool v = checkText(longCaseText(kind, n), kase, (longCuts(kind, n) ? F_CUTS : 0) | F_PY); if (v) vf::add(W_LONG_VALID); if (v != (kind != 8)) vf::violation("harness_long_not_valid", "generated long document misclassified by the reference", kase); }
+
+// ---- family G: the library's own chunker (Xdl::read / Json::read feed the parser in blocks of 16382 bytes): a token placed across every block boundary position, with and without BOM
+static const char* RTOKS[] = { "\"a\\u00e9\\n\xe2\x82\xac\"", "-12.5e+3", "false", "{\"k\":[1,null]}" };
+static const int RSIZES[] = { 1, 2, 3, 4, 16380, 16381, 16382, 16383, 16384, 32763, 32764, 32765, 49146, 100000, 100001 };
+enum { NRTOKS = sizeof RTOKS / sizeof *RTOKS, NRSIZES = sizeof RSIZES / sizeof *RSIZES, RBLOCK = 16382 };
+static std::string readCaseText(int kind, int a, int b) { // kind 0: the first b bytes of token a lie in the first block, the rest in the second; kind 1: document of exactly RSIZES[a] bytes
+	if (kind == 0) return "[" + std::string(RBLOCK - 1 - b, ' ') + RTOKS[a] + ",1]";
+	int n = RSIZES[a]; if (n == 1) return "7"; if (n == 2) return "[]"; if (n == 3) return "[7]"; return "[" + std::string(n - 3, ' ') + "7]";
+}
+static void readCase(int kind, int a, int b, int bom, int api) {
+	std::string kase = fmt("read:%d:%d:%d:%d:%d", kind, a, b, bom, api); vf::cur(kase); vf::asan_clear(); vf::add(W_READ);
+	std::string t = readCaseText(kind, a, b), path = vf::scratch_dir() + fmt("/read.%d.json", (int)getpid());
+	FILE* f = fopen(path.c_str(), "wb"); if (!f) { fprintf(stderr, "cannot write %s\n", path.c_str()); _exit(2); }
+	if (bom) fwrite("\xef\xbb\xbf", 1, 3, f);
+	fwrite(t.data(), 1, t.size(), f); fclose(f);
+	if (kind == 0 && b > 0 && b < (int)strlen(RTOKS[a])) vf::add(W_READ_SPLIT);
+	Var v = api ? Xdl::read(path.c_str()) : Json::read(path.c_str());
+	remove(path.c_str());
+	rj::RV rv; bool ex = false; bool ok = rj::parse(t, rv, &ex);
+	if (!ok || ex) { fprintf(stderr, "reference rejects its own file document\n"); _exit(2); }
+	Var w = Json::decode(vfx::A(t));
+	std::string T = fmt("%s of a %d-byte file%s", api ? "Xdl::read" : "Json::read", (int)t.size() + 3 * bom, bom ? " with BOM" : "");
+	if (!v.ok()) vf::violation("chunk_dependence_read", T + " rejects a valid document ('" + shortText(kind == 0 ? std::string(RTOKS[a]) : t) + "' " + (kind == 0 ? fmt("with its first %d bytes in the first block)", b) : std::string(")")), kase);
+	else if (dumpVar(v) != rj::dump(rv) || dumpVar(v) != dumpVar(w)) vf::violation("chunk_dependence_read", T + " gives " + dumpVar(v).substr(0, 200) + ", decode of the same text gives " + dumpVar(w).substr(0, 200), kase);
+	if (vf::asan_tripped()) { vf::violation("asan", "ASan " + vf::asan_what() + " in " + T, kase); vf::asan_clear(); }
+}
+struct ReadItem { int kind, a, b; };
+static std::vector<ReadItem> readItems() { std::vector<ReadItem> v; for (int a = 0; a < NRTOKS; a++) for (int b = -1; b <= (int)strlen(RTOKS[a]) + 1; b++) { ReadItem r = { 0, a, b }; v.push_back(r); } for (int a = 0; a < NRSIZES; a++) { ReadItem r = { 1, a, 0 }; v.push_back(r); } return v; }
 
 template <class S>
 static vf::BfsResult runPass(S& sys, int depth, const char* infoKey) {
 	vf::Bfs<S> b(sys, sys.label);
 	vf::BfsResult r = b.run(depth, 0);
 	std::string pd; for (size_t i = 0; i < r.per_depth.size(); i++) pd += fmt(i ? ",%llu" : "%llu", (unsigned long long)r.per_depth[i]);
-	vf::setinfo(infoKey, fmt("{\"depth_completed\": %d, \"states\": %llu, \"transitions\": %llu, \"new_states_per_depth\": [%s], \"alphabet\": %d, \"key\": \"%s\"}", r.depth_done, (unsigned long long)r.states, (unsigned long long)r.transitions, pd.c_str(), NSYM, sys.abstract ? "abstracted" : "exact"));
+	vf::setinfo(infoKey, fmt("{\"depth_completed\": %d, \"states\": %llu, \"transitions\": %llu, \"new_states_per_depth\": [%s], \"alphabet\": %d, \"key\": \"%s\"}", r.depth_done, (unsigned long long)r.states, (unsigned long long)r.transitions, pd.c_str(), sys.nsym, sys.abstract ? "abstracted" : "exact"));
 	return r;
 }
+
+// abstraction check: up to the exact pass's depth, the abstract states reached through the exact search must all be reached by the abstracted search
+static bool abstractionCheck(const std::string& la, const std::string& lb, int depth, const char* infoKey) {
+	std::set<std::string> sa, sb; char line[128];
+	std::vector<std::string> fa = vf::list_scratch("abs." + la + "."), fb = vf::list_scratch("abs." + lb + ".");
+	for (size_t i = 0; i < fa.size(); i++) { FILE* f = fopen(fa[i].c_str(), "r"); while (f && fgets(line, sizeof line, f)) sa.insert(strchr(line, ' ') ? strchr(line, ' ') + 1 : line); if (f) fclose(f); }
+	for (size_t i = 0; i < fb.size(); i++) { FILE* f = fopen(fb[i].c_str(), "r"); while (f && fgets(line, sizeof line, f)) sb.insert(strchr(line, ' ') ? strchr(line, ' ') + 1 : line); if (f) fclose(f); }
+	size_t onlyA = 0, onlyB = 0; for (std::set<std::string>::iterator it = sa.begin(); it != sa.end(); ++it) if (!sb.count(*it)) onlyA++; for (std::set<std::string>::iterator it = sb.begin(); it != sb.end(); ++it) if (!sa.count(*it)) onlyB++;
+	vf::setinfo(infoKey, fmt("{\"depth\": %d, \"abstract_states_via_exact_search\": %llu, \"abstract_states_via_abstracted_search\": %llu, \"only_exact\": %llu, \"only_abstracted\": %llu}", depth, (unsigned long long)sa.size(), (unsigned long long)sb.size(), (unsigned long long)onlyA, (unsigned long long)onlyB));
+	if (vf::nviolations() == 0 && (onlyA || sa.empty())) { fprintf(stderr, "HARNESS ERROR: abstraction of pass %s is not reachability-preserving up to depth %d (%llu of %llu abstract states reached by the exact search are never reached by the abstracted search)\n", lb.c_str(), depth, (unsigned long long)onlyA, (unsigned long long)sa.size()); return false; }
+	return true;
+}
+static std::string PHASES; static double phaseT0;
+static double cpuChildren() { struct rusage r; getrusage(RUSAGE_CHILDREN, &r); return r.ru_utime.tv_sec + r.ru_utime.tv_usec / 1e6 + r.ru_stime.tv_sec + r.ru_stime.tv_usec / 1e6; }
+static void phase(const char* name) { double t = cpuChildren(); PHASES += fmt("%s\"%s\": %.1f", PHASES.empty() ? "" : ", ", name, t - phaseT0); phaseT0 = t; }
 
 int main(int argc, char** argv) {
 	vf::init(argc, argv, "C06", "c06_jsonparse");
@@ -233,37 +407,59 @@ int main(int argc, char** argv) {
 	for (int i = 0; i < NCTX; i++) W_CTX[i] = vf::counter(fmt("w.context_%s", cn[i]).c_str());
 	W_PUSHBACK = vf::counter("w.one_char_push_back_taken"); W_ACCEPT = vf::counter("w.valid_documents_compared"); W_REJECT_OPEN = vf::counter("w.open_top_level_prefixes_checked"); W_LENIENT = vf::counter("w.non_json_accepted_leniently");
 	W_EXCLUDED = vf::counter("w.outside_statement_nul_or_lone_surrogate_or_bad_utf8"); C_PYLINES = vf::counter("texts_cross_checked_with_python"); W_DEEP = vf::counter("w.deep_documents"); W_SNIP = vf::counter("w.documents_with_inserted_snippets"); W_SNIP_VALID = vf::counter("w.snippet_documents_that_are_valid_json");
+	W_SURROGATE_PAIR = vf::counter("w.surrogate_pair_escapes_combined"); W_DUPKEY_PENDING = vf::counter("w.bfs_states_with_pending_repeated_name"); W_DUPKEY = vf::counter("w.valid_documents_with_repeated_member_name"); W_MULTI = vf::counter("w.valid_documents_with_object_of_2_or_more_members");
+	static const char* en[] = { "quote", "backslash", "slash", "b", "f", "n", "r", "t", "u" };
+	for (int i = 0; i < 9; i++) W_ESC[i] = vf::counter(fmt("w.escape_%s", en[i]).c_str());
+	W_HEXU = vf::counter("w.unicode_escape_uppercase_hex_digits"); W_HEXL = vf::counter("w.unicode_escape_lowercase_hex_digits");
+	W_LIT[0] = vf::counter("w.literal_true"); W_LIT[1] = vf::counter("w.literal_false"); W_LIT[2] = vf::counter("w.literal_null");
+	W_ATOF = vf::counter("w.integer_token_longer_than_9_chars_via_atof"); W_ATOIZ = vf::counter("w.integer_token_up_to_9_chars_via_atoi"); W_BEYOND32 = vf::counter("w.integer_token_outside_int32");
+	W_EXPU = vf::counter("w.exponent_uppercase_E"); W_EXPPLUS = vf::counter("w.exponent_plus_sign"); W_TAB = vf::counter("w.tab_outside_strings_accepted"); W_CR = vf::counter("w.cr_outside_strings_accepted");
+	W_BUFHEAP = vf::counter("w.texts_that_move_the_token_buffer_to_the_heap"); W_PB_CUT = vf::counter("w.two_cuts_starting_with_the_pushed_back_byte"); W_EMPTY = vf::counter("w.empty_chunks_fed"); W_CUTS = vf::counter("w.two_cuts_fed"); C_FAMPY = vf::counter("family_texts_cross_checked_with_python");
+	W_TOK = vf::counter("w.token_table_documents"); W_TOK_VALID = vf::counter("w.token_table_documents_valid"); W_OBJDOC = vf::counter("w.object_family_documents"); W_LONG = vf::counter("w.long_or_wide_documents"); W_LONG_VALID = vf::counter("w.long_or_wide_documents_valid");
+	W_DEEPCUT = vf::counter("w.deep_document_two_cuts"); W_READ = vf::counter("w.files_read_through_library_chunker"); W_READ_SPLIT = vf::counter("w.files_with_token_split_across_read_blocks");
 	bool T = vf::opt.thorough();
+	buildTokens();
 	JsonSysH A(false, 99, 64, "exact"), B(true, 3, T ? 14 : 40, "abstract");
+	JsonSysH AX(false, 99, 64, "exactx", NSYM_ALL), BX(true, 3, 40, "abstractx", NSYM_ALL); // the same two passes over the extended alphabet, shallower
 	if (vf::opt.replay) {
 		const std::string& k = vf::opt.kase;
 		vf::parallel(1, [&](uint64_t) {
-			if (k.compare(0, 5, "exact") == 0) { vf::Bfs<JsonSysH> b(A, "exact"); vf::Hist h = vf::hist_parse(k.substr(6)); b.run_one(vf::Hist(), -1, 0, false); vf::H128 key; b.run_one(h, -1, &key); }
-			else if (k.compare(0, 8, "abstract") == 0) { vf::Bfs<JsonSysH> b(B, "abstract"); vf::Hist h = vf::hist_parse(k.substr(9)); b.run_one(vf::Hist(), -1, 0, false); vf::H128 key; b.run_one(h, -1, &key); }
-			else if (k.compare(0, 5, "snip:") == 0) { int d, p2, s1, q, s2; if (sscanf(k.c_str(), "snip:%d:%d:%d:%d:%d", &d, &p2, &s1, &q, &s2) == 5) snippetText(snippetCaseText(d, p2, s1, q, s2), k); }
-			else deepCases();
+			int a, b, c, d, e;
+			if (k.compare(0, 7, "exactx:") == 0) { vf::Bfs<JsonSysH> bf(AX, "exactx"); vf::Hist h = vf::hist_parse(k.substr(7)); bf.run_one(vf::Hist(), -1, 0, false); vf::H128 key; bf.run_one(h, -1, &key); }
+			else if (k.compare(0, 10, "abstractx:") == 0) { vf::Bfs<JsonSysH> bf(BX, "abstractx"); vf::Hist h = vf::hist_parse(k.substr(10)); bf.run_one(vf::Hist(), -1, 0, false); vf::H128 key; bf.run_one(h, -1, &key); }
+			else if (k.compare(0, 5, "exact") == 0) { vf::Bfs<JsonSysH> bf(A, "exact"); vf::Hist h = vf::hist_parse(k.substr(6)); bf.run_one(vf::Hist(), -1, 0, false); vf::H128 key; bf.run_one(h, -1, &key); }
+			else if (k.compare(0, 8, "abstract") == 0) { vf::Bfs<JsonSysH> bf(B, "abstract"); vf::Hist h = vf::hist_parse(k.substr(9)); bf.run_one(vf::Hist(), -1, 0, false); vf::H128 key; bf.run_one(h, -1, &key); }
+			else if (sscanf(k.c_str(), "snip:%d:%d:%d:%d:%d", &a, &b, &c, &d, &e) == 5) snippetText(snippetCaseText(a, b, c, d, e), k);
+			else if (sscanf(k.c_str(), "tok:%d:%d:%d:%d", &a, &b, &c, &d) == 4) tokenCase(a, b, c, d);
+			else if (sscanf(k.c_str(), "obj:%d:%d", &a, &b) == 2) objectCase(a, b);
+			else if (sscanf(k.c_str(), "long:%d:%d", &a, &b) == 2) longCase(a, b);
+			else if (sscanf(k.c_str(), "read:%d:%d:%d:%d:%d", &a, &b, &c, &d, &e) == 5) readCase(a, b, c, d, e);
+			else if (sscanf(k.c_str(), "deep:%d:%d", &a, &b) == 2) deepCase(a, b);
+			else if (sscanf(k.c_str(), "deepjunk:%d", &a) == 1) deepJunk(a);
+			else for (int i = 0; i < NDEEPITEMS; i++) deepItem(i);
 		});
 		return vf::finish();
 	}
 	A.absDepth = T ? 5 : 4; B.absDepth = 99; // every abstract state the exact search reaches must be reached by the abstracted search at some depth
-	vf::BfsResult ra = runPass(A, T ? 5 : 4, "pass_A_exact");
-	vf::BfsResult rb = runPass(B, T ? 10 : 8, "pass_B_abstract");
-	vf::add(cS, ra.states + rb.states); vf::add(cT, ra.transitions + rb.transitions); vf::add(cTr, ra.traces + rb.traces);
-	vf::parallel(1, [&](uint64_t) { deepCases(); });
-	{ std::vector<std::pair<int, int> > items; for (int d = 0; d < NDOCS; d++) for (int q = 0; q <= (int)strlen(DOCS[d]); q++) items.push_back(std::make_pair(d, q)); vf::parallel(items.size(), [&](uint64_t i) { snippetItem(items[i].first, items[i].second, true); }); }
-	// abstraction check: up to pass A's depth, the abstract states reached through the exact search and through the abstracted search must coincide
-	{
-		std::set<std::string> sa, sb; char line[128];
-		std::vector<std::string> fa = vf::list_scratch("abs.exact."), fb = vf::list_scratch("abs.abstract.");
-		for (size_t i = 0; i < fa.size(); i++) { FILE* f = fopen(fa[i].c_str(), "r"); while (f && fgets(line, sizeof line, f)) sa.insert(strchr(line, ' ') ? strchr(line, ' ') + 1 : line); if (f) fclose(f); }
-		for (size_t i = 0; i < fb.size(); i++) { FILE* f = fopen(fb[i].c_str(), "r"); while (f && fgets(line, sizeof line, f)) sb.insert(strchr(line, ' ') ? strchr(line, ' ') + 1 : line); if (f) fclose(f); }
-		size_t onlyA = 0, onlyB = 0; for (std::set<std::string>::iterator it = sa.begin(); it != sa.end(); ++it) if (!sb.count(*it)) onlyA++; for (std::set<std::string>::iterator it = sb.begin(); it != sb.end(); ++it) if (!sa.count(*it)) onlyB++;
-		vf::setinfo("abstraction_check", fmt("{\"depth\": %d, \"abstract_states_via_exact_search\": %llu, \"abstract_states_via_abstracted_search\": %llu, \"only_exact\": %llu, \"only_abstracted\": %llu}", A.absDepth, (unsigned long long)sa.size(), (unsigned long long)sb.size(), (unsigned long long)onlyA, (unsigned long long)onlyB));
-		if (vf::nviolations() == 0 && onlyA) { fprintf(stderr, "HARNESS ERROR: abstraction of pass B is not reachability-preserving up to depth %d (%llu abstract states reached by the exact search are never reached by the abstracted search)\n", A.absDepth, (unsigned long long)onlyA); vf::finish(); return 2; }
-	}
+	phaseT0 = cpuChildren();
+	vf::BfsResult ra = runPass(A, T ? 5 : 4, "pass_A_exact"); phase("pass_A");
+	vf::BfsResult rb = runPass(B, T ? 10 : 8, "pass_B_abstract"); phase("pass_B");
+	AX.absDepth = T ? 4 : 3; BX.absDepth = 99;
+	vf::BfsResult rax = runPass(AX, T ? 4 : 3, "pass_AX_exact_extended_alphabet"); phase("pass_AX");
+	vf::BfsResult rbx = runPass(BX, T ? 8 : 6, "pass_BX_abstract_extended_alphabet"); phase("pass_BX");
+	vf::add(cS, ra.states + rb.states + rax.states + rbx.states); vf::add(cT, ra.transitions + rb.transitions + rax.transitions + rbx.transitions); vf::add(cTr, ra.traces + rb.traces + rax.traces + rbx.traces);
+	vf::parallel(NDEEPITEMS, [&](uint64_t i) { deepItem((int)i); }); phase("deep");
+	{ std::vector<std::pair<int, int> > items; for (int d = 0; d < NDOCS; d++) for (int q = 0; q <= (int)strlen(DOCS[d]); q++) items.push_back(std::make_pair(d, q)); vf::parallel(items.size(), [&](uint64_t i) { snippetItem(items[i].first, items[i].second, true); }); } phase("snippets");
+	vf::parallel(TOKS.size(), [&](uint64_t i) { tokenItem((int)i, T); }); phase("token_table");
+	{ int K = T ? 4 : 3; std::vector<std::pair<int, int> > items; for (int k = 1; k <= K; k++) for (int i = 0; i < pow15(k); i++) items.push_back(std::make_pair(k, i)); vf::parallel(items.size(), [&](uint64_t i) { objectCase(items[i].first, items[i].second); }, 64); } phase("objects");
+	{ int NT = T ? 1100 : 300, NC = T ? 300 : 130; std::vector<std::pair<int, int> > items; for (int kind = 0; kind < NLONGKINDS; kind++) for (int n = 0; n <= (longIsContainer(kind) ? NC : NT); n++) items.push_back(std::make_pair(kind, n)); vf::parallel(items.size(), [&](uint64_t i) { longCase(items[items.size() - 1 - i].first, items[items.size() - 1 - i].second); }); } phase("long_wide");
+	{ std::vector<ReadItem> items = readItems(); vf::parallel(items.size(), [&](uint64_t i) { for (int bom = 0; bom < 2; bom++) for (int api = 0; api < 2; api++) readCase(items[i].kind, items[i].a, items[i].b, bom, api); }); } phase("files");
+	vf::setinfo("families", fmt("{\"tokens\": %d, \"token_contexts\": %d, \"white_space_forms\": %d, \"snippet_documents\": %d, \"snippets\": %d, \"object_members_max\": %d, \"long_token_max\": %d, \"wide_container_max\": %d, \"extended_bfs_alphabet\": %d}", (int)TOKS.size(), (int)NCTXS, (int)NWS, (int)NDOCS, (int)NSNIPS, T ? 4 : 3, T ? 1100 : 300, T ? 300 : 130, (int)NSYM_ALL));
+	if (!abstractionCheck("exact", "abstract", A.absDepth, "abstraction_check") || !abstractionCheck("exactx", "abstractx", AX.absDepth, "abstraction_check_extended_alphabet")) { vf::finish(); return 2; }
 	// cross-check of the reference recogniser against python's json on every collected text
 	std::vector<std::string> files = vf::list_scratch("py.");
-	if (!files.empty()) {
+	if (files.empty() || vf::get(C_PYLINES) == 0 || vf::get(C_FAMPY) == 0) { fprintf(stderr, "HARNESS ERROR: no texts were collected for the cross-check of the reference recogniser against python json (scratch files could not be written?)\n"); vf::finish(); return 2; }
+	{
 		std::string cmd = "python3 /verif/tools/ref_json.py";
 		for (size_t i = 0; i < files.size(); i++) cmd += " '" + files[i] + "'";
 		cmd += " > '" + vf::scratch_dir() + "/py.out' 2>&1";
@@ -271,9 +467,11 @@ int main(int argc, char** argv) {
 		FILE* f = fopen((vf::scratch_dir() + "/py.out").c_str(), "r");
 		std::string out; char line[1000]; while (f && fgets(line, sizeof line, f)) out += line; if (f) fclose(f);
 		vf::setinfo("python_cross_check", vf::jstr(out.size() > 1500 ? out.substr(out.size() - 1500) : out));
+		phase("python"); vf::setinfo("cpu_seconds_of_children_per_phase", "{" + PHASES + "}");
 		if (rc != 0) { fprintf(stderr, "HARNESS ERROR: reference recogniser disagrees with python json:\n%s\n", out.c_str()); vf::finish(); return 2; }
 	}
-	vf::sample("exact pass: every symbol sequence over the 29-symbol alphabet { } [ ] , : \" \\ / * = SP LF 0 1 - . e a _ true null e-acute \\ud83d \\ude00 0x01 0x80 0xff u");
+	vf::sample(std::string("exact pass: every symbol sequence over the alphabet { } [ ] , : \" \\ / * = SP LF 0 1 - . e a _ true null e-acute \\ud83d \\ude00 0x01 0x80 0xff u; passes exactx/abstractx: the same plus false E + \\b \\f \\r TAB CR 9"));
+	vf::sample("token table: [ \\t-2147483649\\r\\n,\\t-2147483649\\r\\n] ; {\"\\b\\f\\r\\u00E9\":1,\"\\b\\f\\r\\u00E9\":2} ; 1.5E+3 ; objects {\"a\":1,\"\":[],\"a\":false} ; strings/names/digit runs of every length up to 300");
 	vf::sample("{\"a/\\ud83d\\ude00\":[1e1,-0.0,true,null]} cut at every byte; [[1 ; {\"a\":\"x ; 01 ; 1 2");
 	return vf::finish();
 }
